@@ -162,6 +162,10 @@ def classify(kind, trace_rows, verdict):
         cls = "interception-not-applied-for-state-in-force"
     elif broken and set(broken) <= {"Key", "KeyValue"}:
         cls = "key-in-use-differs-from-latched"
+    if 0 < k <= len(polls) and polls[k - 1].get("errdoc") and "FailedPollChangesNothing" in broken:
+        return {"broken": broken, "kind": "error-status-with-valid-document-applied"}
+    if 0 < k <= len(polls) and polls[k - 1].get("slow"):
+        return {"broken": broken, "kind": "slow-status-answer-not-followed"}
     if 0 < k <= len(polls):
         r = polls[k - 1]
         for ep in kk.EPS:
